@@ -31,12 +31,46 @@ def boundary(bits, signed=True):
     return sorted(set([-1, 0, 1, lim // 2 - 1, lim // 2, lim - 1, lim, 65535, 32768, 32767]))
 
 
+SOURCES = []      # (tag, feature, text) of the cases built by gen_cases, for the command-line stage
+
+
+def cli_accept(ctx, violations):
+    """What the USER sees as 'accepted': the exit status of `lace check` (real binary, hooks off) on the boundary sources
+    - all label-distance, label and .orig cases, a stride of the literal grid - against the model's decision."""
+    import os, clicommon
+    from props import C06
+    exe = ctx.cli()
+    d = clicommon.fresh_dir(ctx, "cliaccept")
+    picks = [x for i, x in enumerate(SOURCES) if x[0].startswith(("dist", "label", "orig", "dup", "undef")) or i % (9 if ctx.tier == "quick" else 2) == 0]
+    picks = [x for x in picks if len(x[2]) < 20000][: (900 if ctx.tier == "quick" else 20000)]
+    model = ctx.run_model([C06.obj_case(f, t) for _, f, t in picks], tag="cliaccept")
+    jobs = []
+    for k, (tg, feat, text) in enumerate(picks):
+        f = os.path.join(d, f"a{k}.asm")
+        with open(f, "w", encoding="utf-8") as fh:
+            fh.write(text)
+        jobs.append(lambda f=f, feat=feat: clicommon.run_cli(exe, ["check", f] + (["-f", "stack"] if feat else []), d))
+    got = clicommon.parallel(jobs)
+    n = bad = 0
+    for (tg, feat, text), m, (rc, so, se) in zip(picks, model, got):
+        me = int(m[0].split()[0], 16)
+        n += 1
+        if (rc == 0) != (me == 0) or rc not in (0, 1):
+            bad += 1
+            if bad <= 4:
+                violations.append({"kind": "check-verdict-differs", "tag": tg, "feature_stack": feat, "source": text, "check_exit": rc,
+                                   "model_accepts": me == 0, "check_output": (so + se).decode("utf-8", "replace")[-400:]})
+    return {"runs": n, "mismatches": bad, "rule": "real binary: exit status of `lace check` vs the model's accept/reject decision"}
+
+
 def gen_cases(tier, seed):
     rnd = random.Random(seed)
     cases, tags = [], []
 
+    SOURCES.clear()
+
     def add(tag, text, feat=0):
-        cases.append(asmgen.asm_case(feat, [(1, text)])); tags.append(tag)
+        cases.append(asmgen.asm_case(feat, [(1, text)])); tags.append(tag); SOURCES.append((tag, feat, text))
 
     # literal operands of every form at the field boundaries, in every spelling
     forms = [("imm5", "add r1 r2 {}", 5, True), ("imm5", "and r7 r0 {}", 5, True),
@@ -122,9 +156,11 @@ def correspondence(ctx, violations, known_hits):
     profiles = ("debug",) if ctx.tier == "quick" else ("debug", "release")
     r = asmcommon.run_asm_cases(ctx, cases, tags, violations, profiles, aux=AUX,
                                 prop_note="the model's accept/reject decision is proved to be the 'fits' predicate at operand level (C04 theorems)")
+    cli = cli_accept(ctx, violations)
     ctx.cleanup()
     return {
-        "evaluations": r["evaluations"], "distinct_nontrivial": len(r["sigs"]),
+        "lace_check_on_the_command_line": cli,
+        "evaluations": r["evaluations"] + cli["runs"], "distinct_nontrivial": len(r["sigs"]),
         "rule": "every literal-taking form x boundary values of its field (min-1, min, -1, 0, max, max+1, 16-bit extremes) x "
                 "spellings (#dec, #unsigned, xHEX, 0xhex, x-HEX); every trap vector 0..256; .orig values; label distances "
                 "at/inside/beyond +-2^(n-1) built with .blkw for every PC-relative instruction incl. CALL; undefined, duplicate, "
@@ -137,4 +173,19 @@ def correspondence(ctx, violations, known_hits):
 
 
 def replay(ctx, payload):
+    if payload.get("kind") == "check-verdict-differs":
+        import os, core, clicommon
+        from core import log
+        from props import C06
+        exe, out = core.build_lace_cli()
+        if exe is None:
+            log(out[-2000:]); return 2
+        d = clicommon.fresh_dir(ctx, "replaycheck")
+        f = os.path.join(d, "a.asm"); open(f, "w", encoding="utf-8").write(payload["source"])
+        feat = payload.get("feature_stack", 0)
+        rc, so, se = clicommon.run_cli(exe, ["check", f] + (["-f", "stack"] if feat else []), d)
+        m = ctx.run_model([C06.obj_case(feat, payload["source"])], tag="replaycheck")
+        me = int(m[0][0].split()[0], 16)
+        log(f"lace check: exit {rc}; model accepts: {me == 0}; output tail: {(so + se).decode('utf-8', 'replace')[-200:]!r}")
+        return 0 if (rc == 0) == (me == 0) and rc in (0, 1) else 1
     return asmcommon.replay_asm(ctx, payload)
